@@ -92,6 +92,205 @@ func runC16(c *Ctx, w *World, r *Report) {
 	r.Rule("R-PAIRS", "FirstDiffBits stores sFirstDiffBit(keys[i], keys[i+1]) at index i for i = 0 .. len(keys)-2 into a slice of len(keys)-1 entries")
 	r.Rule("R-PREFIXCOUNT", "countPrefixes: running minimum over every difference (replaced exactly when larger); histogram slot d-min incremented exactly when d-min < m-1; result[0] = 1 and result[i+1] = result[i] + histogram[i] for i = 0 .. m-2; CountPrefixes passes differences [s, e-1) and m unchanged")
 
+	reportFirstDiff(w, r, fns)
+	{ // R-PREFIXCOUNT
+		n := "sigbits.countPrefixes"
+		fn := fns[n]
+		fa := w.FA(fn)
+		bad := ""
+		m1 := fa.Lin(fn.Params[1]).Add(linConst(-1))
+		rets := returnsOf(fn)
+		if len(rets) != 1 {
+			bad = "expected a single return"
+		} else {
+			minPhi, ok := stripConv(rets[0].Results[0]).(*ssa.Phi)
+			if !ok {
+				bad = "first result is not a running minimum"
+			} else {
+				cands, inits, e := runningMin(fa, minPhi)
+				if e != "" {
+					bad = e
+				}
+				for _, cv := range cands {
+					if role, ok, why := fullRangeElem(fa, cv); !ok || role != "firstdiffs" {
+						bad = "minimum candidate is not every element of the differences: " + why
+					}
+				}
+				for _, iv := range inits {
+					if k, ok := constInt64(stripConv(iv)); !ok || k < 0x7fffffff {
+						bad = "minimum does not start at the largest int32"
+					}
+				}
+				// histogram and prefix sums
+				var hist, res *ssa.MakeSlice
+				eachInstr(fn, func(ins ssa.Instruction) {
+					if mk, ok := ins.(*ssa.MakeSlice); ok {
+						if fa.Lin(mk.Len).Eq(m1) {
+							hist = mk
+						} else if fa.Lin(mk.Len).Eq(fa.Lin(fn.Params[1])) {
+							res = mk
+						}
+					}
+				})
+				if hist == nil || res == nil {
+					bad = "histogram (m-1 slots) and result (m slots) allocations not found"
+				} else {
+					if rets[0].Results[1] != ssa.Value(res) {
+						bad = "second result is not the m-slot slice"
+					}
+					nh, n0, nsum := 0, 0, 0
+					eachInstr(fn, func(ins ssa.Instruction) {
+						st, ok := ins.(*ssa.Store)
+						if !ok {
+							return
+						}
+						ia, ok := st.Addr.(*ssa.IndexAddr)
+						if !ok {
+							return
+						}
+						il := fa.Lin(ia.Index)
+						switch ia.X {
+						case ssa.Value(hist):
+							nh++
+							// index = d - min, d full range; value = old + 1; guarded by idx - (m-1) <= -1
+							d := il.Add(fa.Lin(minPhi))
+							okD := false
+							if len(d.T) == 1 && d.K == 0 {
+								for atom, coef := range d.T {
+									if role, ok, _ := fullRangeElem(fa, fa.AtomValue(atom)); ok && role == "firstdiffs" && coef == 1 {
+										okD = true
+									}
+								}
+							}
+							if !okD {
+								bad = "histogram slot is " + il.String() + ", expected d - min over every difference d"
+							}
+							bd := fa.BoundsAt(st.Block(), il.Sub(m1))
+							if !(bd.HasHi && bd.Hi == -1) {
+								bad = "histogram increment is not guarded by d-min < m-1 exactly: " + bd.String()
+							}
+							vl := fa.Lin(st.Val)
+							if vl.K != 1 || len(vl.T) != 1 {
+								bad = "histogram slot is not incremented by 1"
+							}
+						case ssa.Value(res):
+							if il.IsConst() && il.K == 0 {
+								n0++
+								if k, ok := constInt64(stripConv(st.Val)); !ok || k != 1 {
+									bad = "result[0] is not 1 (there is exactly one 0-bit-extension prefix)"
+								}
+								return
+							}
+							nsum++
+							iv, ok := fa.InductionOf(ia.Index, st.Block())
+							if !ok || !iv.FirstConst || iv.First != 1 || iv.Step != 1 || !iv.HasN || !iv.N.Eq(fa.Lin(fn.Params[1])) {
+								bad = "prefix sums are not written for slots 1 .. m-1"
+							}
+							vl := fa.Lin(st.Val)
+							nr, nhh := 0, 0
+							for atom, coef := range vl.T {
+								cont, idx, ok := asElemLoad(fa.AtomValue(atom))
+								if !ok || coef != 1 || !fa.Lin(idx).Eq(il.Add(linConst(-1))) {
+									bad = "result[i+1] is not result[i] + histogram[i]"
+									continue
+								}
+								if cont == ssa.Value(res) {
+									nr++
+								} else if cont == ssa.Value(hist) {
+									nhh++
+								}
+							}
+							if nr != 1 || nhh != 1 || vl.K != 0 {
+								bad = "result[i+1] is not result[i] + histogram[i]"
+							}
+						}
+					})
+					if (nh != 1 || n0 != 1 || nsum != 1) && bad == "" {
+						bad = fmt.Sprintf("expected one histogram increment, one result[0] store and one prefix-sum store; found %d/%d/%d", nh, n0, nsum)
+					}
+				}
+			}
+		}
+		r.Check(bad == "", "R-PREFIXCOUNT", n, w.Pos(fn.Pos()), bad, "min over all d; hist[d-min]++ iff d-min < m-1; res[0]=1; res[i+1]=res[i]+hist[i]")
+
+		// CountPrefixes wiring
+		cp := fns["sigbits.(*SigBits).CountPrefixes"]
+		fcp := w.FA(cp)
+		badW := "CountPrefixes does not call countPrefixes"
+		eachInstr(cp, func(ins ssa.Instruction) {
+			call, ok := ins.(*ssa.Call)
+			if !ok || call.Common().StaticCallee() != fn {
+				return
+			}
+			badW = ""
+			sl, ok := call.Common().Args[0].(*ssa.Slice)
+			if !ok || sl.Low == nil || sl.High == nil {
+				badW = "differences are not sliced [keyStart : keyEnd-1]"
+				return
+			}
+			if _, f, ok := asFieldLoad(sl.X); !ok || f != "sigbits" {
+				badW = "the slice is not the precomputed differences"
+			}
+			if !fcp.Lin(sl.Low).Eq(fcp.Lin(cp.Params[1])) || !fcp.Lin(sl.High).Eq(fcp.Lin(cp.Params[2]).Add(linConst(-1))) {
+				badW = "differences are sliced [" + fcp.Lin(sl.Low).String() + " : " + fcp.Lin(sl.High).String() + "], expected [keyStart : keyEnd-1] (n keys have n-1 adjacent differences)"
+			}
+			if call.Common().Args[1] != ssa.Value(cp.Params[3]) {
+				badW = "maxitem is not passed unchanged"
+			}
+		})
+		r.Check(badW == "", "R-PREFIXCOUNT", "sigbits.(*SigBits).CountPrefixes", w.Pos(cp.Pos()), badW, "countPrefixes(sb.sigbits[keyStart:keyEnd-1], maxitem)")
+		// New stores FirstDiffBits(keys)
+		nw := fns["sigbits.New"]
+		badN := "New does not precompute FirstDiffBits(keys)"
+		eachInstr(nw, func(ins ssa.Instruction) {
+			if call, ok := ins.(*ssa.Call); ok && call.Common().StaticCallee() == fns["sigbits.FirstDiffBits"] && call.Common().Args[0] == ssa.Value(nw.Params[0]) {
+				badN = ""
+			}
+		})
+		r.Check(badN == "", "R-PREFIXCOUNT", "sigbits.New", w.Pos(nw.Pos()), badN, "sigbits = FirstDiffBits(keys)")
+	}
+	_ = sort.Ints
+}
+
+func init() {
+	register(&Prop{
+		ID: "C16", Level: "other",
+		Explain: "Structural necessary conditions of sigbits (DESIGN.md 5/C16): bit/byte units (E4); get64Bits' big-endian gather constants and zero padding; chunk agreement in sFirstDiffBit (stride 8 bytes = 64-bit intrinsic, same offset for both keys, loop guards, position 8*i+lz under lz<64, exact clip against min(8*len)); FirstDiffBits' adjacent-pair wiring and length; countPrefixes' running minimum, histogram guard and prefix sums; CountPrefixes' sub-range slice.",
+		NotDec:  []string{"that the histogram/prefix-sum construction equals the number of distinct prefixes for strictly ascending keys (combinatorial argument)"},
+		Trusted: []string{"go/ssa construction", "math/bits.LeadingZeros64"},
+		Quick:   []Config{cfgDefault}, Thorough: []Config{cfgDefault, cfg386},
+		Run: runC16,
+	})
+}
+
+// freshSliceLen: constant length of a freshly made slice (make([]T, k) is compiled to new [k]T + slice for constant k).
+func freshSliceLen(v ssa.Value) (int64, bool) {
+	switch x := v.(type) {
+	case *ssa.MakeSlice:
+		return constInt64(x.Len)
+	case *ssa.Slice:
+		al, ok := x.X.(*ssa.Alloc)
+		if !ok || x.Low != nil {
+			return 0, false
+		}
+		if x.High != nil {
+			return constInt64(x.High)
+		}
+		if pt, ok := al.Type().Underlying().(*types.Pointer); ok {
+			if at, ok := pt.Elem().Underlying().(*types.Array); ok {
+				return at.Len(), true
+			}
+		}
+	}
+	return 0, false
+}
+
+// reportFirstDiff: the rules on get64Bits / sFirstDiffBit / FirstDiffBits, shared by C16 and C17
+// (ShardByPrefix's prefix lengths are computed from FirstDiffBits).
+func reportFirstDiff(w *World, r *Report, fns map[string]*ssa.Function) {
+	r.Rule("R-GATHER", "get64Bits loads 8 bytes big-endian (byte j at shift 56-8j) from the string when it has >= 8 bytes, else from a zeroed 8-byte copy (zero padding), or uses binary.BigEndian.Uint64")
+	r.Rule("R-CHUNK", "sFirstDiffBit compares a[i:] and b[i:] in chunks of 8 bytes for i = 0,8,16,... while i < len(a) and i < len(b): stride within the chunk, same offset for both keys, LeadingZeros64 of the xor; a difference is reported at bit 8*i + lz only when lz < 64, clipped against min(8*len(a), 8*len(b))")
+	r.Rule("R-PAIRS", "FirstDiffBits stores sFirstDiffBit(keys[i], keys[i+1]) at index i for i = 0 .. len(keys)-2 into a slice of len(keys)-1 entries")
 	{ // R-GATHER
 		n := "sigbits.get64Bits"
 		fn := fns[n]
@@ -315,194 +514,4 @@ func runC16(c *Ctx, w *World, r *Report) {
 		}
 		r.Check(bad == "", "R-PAIRS", n, w.Pos(fn.Pos()), bad, "ds[i] = sFirstDiffBit(keys[i], keys[i+1]), i in [0, len(keys)-1)")
 	}
-	{ // R-PREFIXCOUNT
-		n := "sigbits.countPrefixes"
-		fn := fns[n]
-		fa := w.FA(fn)
-		bad := ""
-		m1 := fa.Lin(fn.Params[1]).Add(linConst(-1))
-		rets := returnsOf(fn)
-		if len(rets) != 1 {
-			bad = "expected a single return"
-		} else {
-			minPhi, ok := stripConv(rets[0].Results[0]).(*ssa.Phi)
-			if !ok {
-				bad = "first result is not a running minimum"
-			} else {
-				cands, inits, e := runningMin(fa, minPhi)
-				if e != "" {
-					bad = e
-				}
-				for _, cv := range cands {
-					if role, ok, why := fullRangeElem(fa, cv); !ok || role != "firstdiffs" {
-						bad = "minimum candidate is not every element of the differences: " + why
-					}
-				}
-				for _, iv := range inits {
-					if k, ok := constInt64(stripConv(iv)); !ok || k < 0x7fffffff {
-						bad = "minimum does not start at the largest int32"
-					}
-				}
-				// histogram and prefix sums
-				var hist, res *ssa.MakeSlice
-				eachInstr(fn, func(ins ssa.Instruction) {
-					if mk, ok := ins.(*ssa.MakeSlice); ok {
-						if fa.Lin(mk.Len).Eq(m1) {
-							hist = mk
-						} else if fa.Lin(mk.Len).Eq(fa.Lin(fn.Params[1])) {
-							res = mk
-						}
-					}
-				})
-				if hist == nil || res == nil {
-					bad = "histogram (m-1 slots) and result (m slots) allocations not found"
-				} else {
-					if rets[0].Results[1] != ssa.Value(res) {
-						bad = "second result is not the m-slot slice"
-					}
-					nh, n0, nsum := 0, 0, 0
-					eachInstr(fn, func(ins ssa.Instruction) {
-						st, ok := ins.(*ssa.Store)
-						if !ok {
-							return
-						}
-						ia, ok := st.Addr.(*ssa.IndexAddr)
-						if !ok {
-							return
-						}
-						il := fa.Lin(ia.Index)
-						switch ia.X {
-						case ssa.Value(hist):
-							nh++
-							// index = d - min, d full range; value = old + 1; guarded by idx - (m-1) <= -1
-							d := il.Add(fa.Lin(minPhi))
-							okD := false
-							if len(d.T) == 1 && d.K == 0 {
-								for atom, coef := range d.T {
-									if role, ok, _ := fullRangeElem(fa, fa.AtomValue(atom)); ok && role == "firstdiffs" && coef == 1 {
-										okD = true
-									}
-								}
-							}
-							if !okD {
-								bad = "histogram slot is " + il.String() + ", expected d - min over every difference d"
-							}
-							bd := fa.BoundsAt(st.Block(), il.Sub(m1))
-							if !(bd.HasHi && bd.Hi == -1) {
-								bad = "histogram increment is not guarded by d-min < m-1 exactly: " + bd.String()
-							}
-							vl := fa.Lin(st.Val)
-							if vl.K != 1 || len(vl.T) != 1 {
-								bad = "histogram slot is not incremented by 1"
-							}
-						case ssa.Value(res):
-							if il.IsConst() && il.K == 0 {
-								n0++
-								if k, ok := constInt64(stripConv(st.Val)); !ok || k != 1 {
-									bad = "result[0] is not 1 (there is exactly one 0-bit-extension prefix)"
-								}
-								return
-							}
-							nsum++
-							iv, ok := fa.InductionOf(ia.Index, st.Block())
-							if !ok || !iv.FirstConst || iv.First != 1 || iv.Step != 1 || !iv.HasN || !iv.N.Eq(fa.Lin(fn.Params[1])) {
-								bad = "prefix sums are not written for slots 1 .. m-1"
-							}
-							vl := fa.Lin(st.Val)
-							nr, nhh := 0, 0
-							for atom, coef := range vl.T {
-								cont, idx, ok := asElemLoad(fa.AtomValue(atom))
-								if !ok || coef != 1 || !fa.Lin(idx).Eq(il.Add(linConst(-1))) {
-									bad = "result[i+1] is not result[i] + histogram[i]"
-									continue
-								}
-								if cont == ssa.Value(res) {
-									nr++
-								} else if cont == ssa.Value(hist) {
-									nhh++
-								}
-							}
-							if nr != 1 || nhh != 1 || vl.K != 0 {
-								bad = "result[i+1] is not result[i] + histogram[i]"
-							}
-						}
-					})
-					if (nh != 1 || n0 != 1 || nsum != 1) && bad == "" {
-						bad = fmt.Sprintf("expected one histogram increment, one result[0] store and one prefix-sum store; found %d/%d/%d", nh, n0, nsum)
-					}
-				}
-			}
-		}
-		r.Check(bad == "", "R-PREFIXCOUNT", n, w.Pos(fn.Pos()), bad, "min over all d; hist[d-min]++ iff d-min < m-1; res[0]=1; res[i+1]=res[i]+hist[i]")
-
-		// CountPrefixes wiring
-		cp := fns["sigbits.(*SigBits).CountPrefixes"]
-		fcp := w.FA(cp)
-		badW := "CountPrefixes does not call countPrefixes"
-		eachInstr(cp, func(ins ssa.Instruction) {
-			call, ok := ins.(*ssa.Call)
-			if !ok || call.Common().StaticCallee() != fn {
-				return
-			}
-			badW = ""
-			sl, ok := call.Common().Args[0].(*ssa.Slice)
-			if !ok || sl.Low == nil || sl.High == nil {
-				badW = "differences are not sliced [keyStart : keyEnd-1]"
-				return
-			}
-			if _, f, ok := asFieldLoad(sl.X); !ok || f != "sigbits" {
-				badW = "the slice is not the precomputed differences"
-			}
-			if !fcp.Lin(sl.Low).Eq(fcp.Lin(cp.Params[1])) || !fcp.Lin(sl.High).Eq(fcp.Lin(cp.Params[2]).Add(linConst(-1))) {
-				badW = "differences are sliced [" + fcp.Lin(sl.Low).String() + " : " + fcp.Lin(sl.High).String() + "], expected [keyStart : keyEnd-1] (n keys have n-1 adjacent differences)"
-			}
-			if call.Common().Args[1] != ssa.Value(cp.Params[3]) {
-				badW = "maxitem is not passed unchanged"
-			}
-		})
-		r.Check(badW == "", "R-PREFIXCOUNT", "sigbits.(*SigBits).CountPrefixes", w.Pos(cp.Pos()), badW, "countPrefixes(sb.sigbits[keyStart:keyEnd-1], maxitem)")
-		// New stores FirstDiffBits(keys)
-		nw := fns["sigbits.New"]
-		badN := "New does not precompute FirstDiffBits(keys)"
-		eachInstr(nw, func(ins ssa.Instruction) {
-			if call, ok := ins.(*ssa.Call); ok && call.Common().StaticCallee() == fns["sigbits.FirstDiffBits"] && call.Common().Args[0] == ssa.Value(nw.Params[0]) {
-				badN = ""
-			}
-		})
-		r.Check(badN == "", "R-PREFIXCOUNT", "sigbits.New", w.Pos(nw.Pos()), badN, "sigbits = FirstDiffBits(keys)")
-	}
-	_ = sort.Ints
-}
-
-func init() {
-	register(&Prop{
-		ID: "C16", Level: "other",
-		Explain: "Structural necessary conditions of sigbits (DESIGN.md 5/C16): bit/byte units (E4); get64Bits' big-endian gather constants and zero padding; chunk agreement in sFirstDiffBit (stride 8 bytes = 64-bit intrinsic, same offset for both keys, loop guards, position 8*i+lz under lz<64, exact clip against min(8*len)); FirstDiffBits' adjacent-pair wiring and length; countPrefixes' running minimum, histogram guard and prefix sums; CountPrefixes' sub-range slice.",
-		NotDec:  []string{"that the histogram/prefix-sum construction equals the number of distinct prefixes for strictly ascending keys (combinatorial argument)"},
-		Trusted: []string{"go/ssa construction", "math/bits.LeadingZeros64"},
-		Quick:   []Config{cfgDefault}, Thorough: []Config{cfgDefault, cfg386},
-		Run: runC16,
-	})
-}
-
-// freshSliceLen: constant length of a freshly made slice (make([]T, k) is compiled to new [k]T + slice for constant k).
-func freshSliceLen(v ssa.Value) (int64, bool) {
-	switch x := v.(type) {
-	case *ssa.MakeSlice:
-		return constInt64(x.Len)
-	case *ssa.Slice:
-		al, ok := x.X.(*ssa.Alloc)
-		if !ok || x.Low != nil {
-			return 0, false
-		}
-		if x.High != nil {
-			return constInt64(x.High)
-		}
-		if pt, ok := al.Type().Underlying().(*types.Pointer); ok {
-			if at, ok := pt.Elem().Underlying().(*types.Array); ok {
-				return at.Len(), true
-			}
-		}
-	}
-	return 0, false
 }
